@@ -439,6 +439,13 @@ def run(ctx):
     # ------------------------------------------------------------------ R-C09-10 / R-C09-11
     formula_rules(ctx, prog, flows)
 
+    # ------------------------------------------------------------------ R-C09-15
+    # sizes and degrees read the name-keyed edge store, get_edge and the matrix the position-keyed one: a success path
+    # of add_edge that writes one of them and not the other makes size(true) disagree with the edge get_edge returns
+    from props.c02 import rule2 as _paired_store_updates
+
+    _paired_store_updates(ctx, prog, flows, Effects(prog, flows), "R-C09-15")
+
     # ------------------------------------------------------------------ R-C09-12 / R-C09-13
     from graphrules import no_edge_identity_collections
 
